@@ -5,16 +5,16 @@ CONSTANTS
   MaxCallsPer = 1
   CallReceivers = {"RC"}
   ReplyReceivers = {"RR"}
-  MaxRecv = 2
-  Cap = 2
+  MaxRecv = 1
+  Cap = 1
   MaxAcks = 2
   MaxDupAcks = 0
   MaxNegAcks = 1
   MaxUnkAcks = 0
-  MaxReplies = 2
+  MaxReplies = 1
   MaxDupReplies = 0
   MaxUnkReplies = 1
-  MaxInCalls = 2
+  MaxInCalls = 1
   MaxFaults = 1
   MaxExpire = 1
   CloseAnytime = TRUE
